@@ -14,7 +14,7 @@ from pv import env, gens
 ID = "C14"
 LEVEL = "fault_enumeration"
 UNDOC_IS_VIOLATION = True
-N = {"quick": 700, "thorough": 5000}
+N = {"quick": 1500, "thorough": 6000}
 RULE = ("part B (enumerated, exhaustive): for 3 valid contracts in both file representations, every single-field deletion (entry: name, "
         "type, data; data: input_vars, output_vars, assumptions, guarantees; machine clause: constant, coefficients) and every single-field "
         "kind change (string -> null/number/list/object, number -> null/non-numeric string/list/object, list -> null/number/string/object, "
